@@ -67,6 +67,15 @@ def check(run: Run) -> None:
                 a1 = n.args[1]
                 if (isinstance(a1, ast.Name) and a1.id == "executor_attr_name") or (isinstance(a1, ast.Constant) and a1.value == exec_attr):
                     reads = True
+                elif isinstance(a1, ast.Name) and a1.id in fi.pos_params:
+                    # the attribute's name arrives as an argument: a read of the executor where a caller passes that name
+                    k_ = fi.pos_params.index(a1.id)
+                    for _c, call_, sk_ in _cso(m, fi):
+                        j_ = k_ - sk_
+                        if 0 <= j_ < len(call_.args):
+                            x_ = call_.args[j_]
+                            if (isinstance(x_, ast.Name) and x_.id == "executor_attr_name") or (isinstance(x_, ast.Constant) and x_.value == exec_attr):
+                                reads = True
             if reads:
                 n_sites += 1
                 run.check(any(fi is g_ for g_ in ge_own), "C12.R1", fi, stmt_of(n), "executor attribute read only in _get_executor", f"{fi.qual.split(':')[-1]} reads the executor reference")
@@ -150,8 +159,15 @@ def check(run: Run) -> None:
     # the walk stops at the first node carrying the attribute
     from ..lib import unit
 
-    def _is_exec_name(a1) -> bool:
-        return (isinstance(a1, ast.Name) and a1.id == "executor_attr_name") or (isinstance(a1, ast.Constant) and a1.value == exec_attr)
+    def _is_exec_name(a1, g=None) -> bool:
+        if (isinstance(a1, ast.Name) and a1.id == "executor_attr_name") or (isinstance(a1, ast.Constant) and a1.value == exec_attr):
+            return True
+        if g is not None and isinstance(a1, ast.Name) and a1.id in g.pos_params:
+            # the name arrives as an argument of a helper
+            k_ = g.pos_params.index(a1.id)
+            sites_ = _cso(m, g)
+            return bool(sites_) and all(0 <= k_ - sk_ < len(call_.args) and _is_exec_name(call_.args[k_ - sk_]) for _c, call_, sk_ in sites_)
+        return False
 
     def _known_holder(g, site, x_expr) -> bool:
         """at `site` of g the fact hasattr(<x_expr>, executor attribute) holds"""
@@ -160,7 +176,7 @@ def check(run: Run) -> None:
             return False
         xt = strip_sites(ga.term_of(x_expr))
         for a, pol in Facts(ga, site).atoms:
-            if pol and isinstance(a, ast.Call) and isinstance(a.func, ast.Name) and a.func.id == "hasattr" and len(a.args) == 2 and _is_exec_name(a.args[1]):
+            if pol and isinstance(a, ast.Call) and isinstance(a.func, ast.Name) and a.func.id == "hasattr" and len(a.args) == 2 and _is_exec_name(a.args[1], g):
                 try:
                     if strip_sites(ga.term_of(a.args[0])) == xt:
                         return True
@@ -172,7 +188,7 @@ def check(run: Run) -> None:
     reads = []
     for g in ge_unit:
         for c in calls_in(g):
-            if isinstance(c.func, ast.Name) and c.func.id == "getattr" and len(c.args) >= 2 and _is_exec_name(c.args[1]):
+            if isinstance(c.func, ast.Name) and c.func.id == "getattr" and len(c.args) >= 2 and _is_exec_name(c.args[1], g):
                 reads.append((g, c))
     ok_stop = bool(reads)
     for g, c in reads:
